@@ -423,7 +423,17 @@ func c17Predict(args []string, fs *c17FS) *c17Pred {
 	}
 	// ---- option evaluation errors (exit 2)
 	compact := pa.bools["compact"]
-	for _, kv := range pa.options {
+	// options are merged into one object, the last value of a key wins and only that one is evaluated (an earlier
+	// `-o k=@nosuchfile` that a later `-o k=...` overrides is never read: demanding an argument error for it was a
+	// harness flaw found by the thorough tier)
+	lastIdx := map[string]int{}
+	for i, kv := range pa.options {
+		lastIdx[kv[0]] = i
+	}
+	for i, kv := range pa.options {
+		if lastIdx[kv[0]] != i {
+			continue
+		}
 		switch kv[0] {
 		case "compact":
 			if b, ok := c17BoolOpt(kv[1]); ok {
